@@ -304,9 +304,17 @@ class TunnelHTTPConnection(ConnectionInterface):
                     headers=connect_headers,
                     extensions=connect_extensions,
                 )
-                connect_response = self._connection.handle_request(
-                    connect_request
-                )
+                try:
+                    connect_response = self._connection.handle_request(
+                        connect_request
+                    )
+                except BaseException as exc:
+                    # The tunnel is set up with the first request on the proxy
+                    # connection, or not at all. If that request fails, however
+                    # it fails, the connection is of no use to anybody.
+                    with ShieldCancellation():
+                        self._connection.close()
+                    raise exc
 
                 if connect_response.status < 200 or connect_response.status > 299:
                     reason_bytes = connect_response.extensions.get("reason_phrase", b"")
